@@ -81,7 +81,8 @@ Record tctx := {
   tc_stable_rev : string; tc_canary_rev : string;
   tc_last_update : option bool;       (* status lastUpdateTime: None = unset, Some e = set, e = older than the grace period *)
   tc_key : bool;                      (* the revision label key is known (it comes from the workload; empty when the workload is gone) *)
-  tc_gateway_fails : bool             (* the provider's API call fails in this invocation (fault injection) *)
+  tc_gateway_fails : bool;            (* the provider's API call fails in this invocation (fault injection) *)
+  tc_only_traffic : bool              (* OnlyTrafficRouting: a TrafficRouting object drives the gateway; no canary Service, no pinning *)
 }.
 Record tres := {
   tr_ok : bool;                       (* DoTrafficRouting / FinalisingTrafficRouting: done.  others: no retry needed *)
@@ -98,12 +99,12 @@ Definition do_traffic_routing (c : tctx) (n : net) (g : graces) : tres :=
   if strategy_empty (tc_strategy c) then tdone true g else
   if negb (n_stable_exists n) then tdone false g else
   if match tc_last_update c with Some false => true | _ => false end then tdone false g else
-  if sempty (tc_stable_rev c) || sempty (tc_canary_rev c) then tdone false g else
-  let w1 := match n_canary_svc n with
+  if negb (tc_only_traffic c) && (sempty (tc_stable_rev c) || sempty (tc_canary_rev c)) then tdone false g else
+  let w1 := if tc_only_traffic c then [] else match n_canary_svc n with
             | None => [WCreateCanarySvc (tc_canary_rev c)]
             | Some r => if String.eqb r (tc_canary_rev c) then [] else [WPatchCanarySvc (tc_canary_rev c)]
             end in
-  let w2 := match n_stable_sel n with
+  let w2 := if tc_only_traffic c then [] else match n_stable_sel n with
             | Some r => if String.eqb r (tc_stable_rev c) then [] else [WPinStable (tc_stable_rev c)]
             | None => [WPinStable (tc_stable_rev c)]
             end in
@@ -138,6 +139,7 @@ Definition restore_gateway (c : tctx) (n : net) (g : graces) : tres :=
 
 Definition remove_canary_service (c : tctx) (n : net) (g : graces) : tres :=
   if negb (tc_refs c) then tdone true g else
+  if tc_only_traffic c then tdone true g else
   let modified := match n_canary_svc n with Some _ => true | None => false end in
   let '(retry, g') := with_grace (tc_zero_grace c) GRemoveCanary modified false g in
   {| tr_ok := negb retry; tr_err := false; tr_writes := if modified then [WDeleteCanarySvc] else []; tr_graces := g'; tr_touched := false |}.
